@@ -5,6 +5,8 @@ CONSTANTS
   Client <- Client2
   MaxNonce = 2
   MaxFail = 3
+  MaxCtl = 0
+  Faults = @@FAULTS@@
   Ops = {"Login", "Close", "Kick", "Tick"}
   Types = {"control"}
   PreAccept = TRUE
